@@ -3,6 +3,8 @@ import OPM.Model.MacroCheck
 import OPM.Lemmas.MacroCheck
 import OPM.Lemmas.InterpC41
 import OPM.Lemmas.InterpC02
+import OPM.Model.InterpRun
+import OPM.Model.Merge
 set_option linter.unusedSimpArgs false
 /-!
 # C41 Macros run their latest definition once per call and never recurse
@@ -31,7 +33,7 @@ loop) and `OPM.Model.MacroCheck` (the recursion check `MacroNode.macro_calling_m
   it is checked on the real engine by the oracle of props/C41.py, not proved here.
 -/
 namespace OPM.C41
-open OPM.Interp OPM.MacroCheck OPM.InterpC41 OPM.InterpC02
+open OPM.Interp OPM.MacroCheck OPM.InterpC41 OPM.InterpC02 OPM.InterpRun
 
 /-! ## the latest definition wins -/
 
@@ -173,6 +175,172 @@ theorem reported_chain_contains_name (p : Prog) (macros : List (String × Nat)) 
     simp only at h
     subst h
     exact (cascadeAux_sound p macros name _ m [] path' v hc hne).1
+
+/-! ## the bridge: the check decides whether the Call macro instruction fails -/
+
+/-- **A call that would make the macro call itself fails, and nothing of the macro runs.**  If the body
+    registered under `name` can reach a `Call macro: name` (directly, through other macros, through calls
+    nested in Watch / Alarm / Block bodies) then the step of the call instruction raises: the call node is
+    marked failed, no frame is pushed (no line of the body is visited), no `bodyStart` is emitted, the
+    macro node's counters and every other node are untouched. -/
+theorem recursive_call_fails (p : Prog) (s : St) (n : Nat) (name : String) (m : Nat) (below : List Frame)
+    (hk : (node p n).kind = .call name) (hl : s.macros.lookup name = some m)
+    (hc : CallsName p s.macros name m) :
+    stepBody p s n 0 below = .raise (markFailed s n) ∧
+    ((markFailed s n).rt n).failed = true ∧
+    coreEvs (markFailed s n) = coreEvs s ∧
+    ∀ k, k ≠ n → (markFailed s n).rt k = s.rt k := by
+  obtain ⟨b, hb, hiff⟩ := recursion_check_exact p s.macros name m
+  have hbt : b = true := hiff.mpr hc
+  subst hbt
+  unfold refuses at hb
+  cases hcas : cascade p s.macros name m with
+  | none => rw [hcas] at hb; cases hb
+  | some l =>
+    rw [hcas] at hb
+    simp only [Option.map_some, Option.some.injEq] at hb
+    refine ⟨?_, by simp, core_markFailed s n, fun k hk' => by simp [hk']⟩
+    unfold stepBody
+    simp only [hk, hl, hcas, hb, if_true]
+
+/-- …and a call that would not make the macro call itself is never refused: it starts the registered
+    body at its first line. -/
+theorem nonrecursive_call_starts_body (p : Prog) (s : St) (n : Nat) (name : String) (m : Nat) (below : List Frame)
+    (hk : (node p n).kind = .call name) (hl : s.macros.lookup name = some m)
+    (hc : ¬ CallsName p s.macros name m) :
+    stepBody p s n 0 below =
+      .next (emit (callPrepare p s m) (.bodyStart n)) [.children m 0 false, .callRet n m] .cont := by
+  obtain ⟨b, hb, hiff⟩ := recursion_check_exact p s.macros name m
+  have hbf : b = false := by
+    cases b with
+    | false => rfl
+    | true => exact absurd (hiff.mp rfl) hc
+  subst hbf
+  unfold refuses at hb
+  cases hcas : cascade p s.macros name m with
+  | none => rw [hcas] at hb; cases hb
+  | some l =>
+    rw [hcas] at hb
+    simp only [Option.map_some, Option.some.injEq] at hb
+    unfold stepBody
+    simp only [hk, hl, hcas, hb, Bool.false_eq_true, if_false]
+
+/-! ## "once per call": full statement, where it fails, what holds -/
+
+/-- number of times a `Call macro: name` instruction began to run the body -/
+def callStarts (p : Prog) (name : String) (tr : List Event) : Nat :=
+  (tr.filter (fun e => match e with
+    | .bodyStart n => (match (node p n).kind with | .call nm => nm == name | _ => false)
+    | _ => false)).length
+
+/-- **Full statement of "once per call"**: for a macro with a single definition, the number of invocations
+    of its body (`run_started_count`) equals the number of calls that ran. -/
+def C41_once_full : Prop :=
+  ∀ (p : Prog) (reqs : List Req) (m : Nat) (name : String),
+    (node p m).kind = .macro name → (∀ m', (node p m').kind = .macro name → m' = m) →
+    ((final p reqs).rt m).runStarted = callStarts p name (trace p reqs)
+
+/-- `Macro: A` [`Mark: a1`, `Wait: 6s`, `Mark: a2`] / `Watch: T0 > 0` [`Call macro: A`, `Mark: w`] /
+    `Call macro: A` / `Mark: e` -/
+def overlap : Prog := #[
+  { kind := .program, parent := none, children := [1, 5, 8, 9], threshold := none, keyPath := [0] },
+  { kind := .macro "A", parent := some 0, children := [2, 3, 4], threshold := none, keyPath := [0, 1] },
+  { kind := .mark "a1", parent := some 1, children := [], threshold := none, keyPath := [0, 1, 2] },
+  { kind := .wait 6, parent := some 1, children := [], threshold := none, keyPath := [0, 1, 3] },
+  { kind := .mark "a2", parent := some 1, children := [], threshold := none, keyPath := [0, 1, 4] },
+  { kind := .watch ⟨0, .gt, 0⟩, parent := some 0, children := [6, 7], threshold := none, keyPath := [0, 5] },
+  { kind := .call "A", parent := some 5, children := [], threshold := none, keyPath := [0, 5, 6] },
+  { kind := .mark "w", parent := some 5, children := [], threshold := none, keyPath := [0, 5, 7] },
+  { kind := .call "A", parent := some 0, children := [], threshold := none, keyPath := [0, 8] },
+  { kind := .mark "e", parent := some 0, children := [], threshold := none, keyPath := [0, 9] }]
+
+def overlapSched : List Req := (List.range 19).map (fun k => .tick ⟨(k : Nat), (k : Nat), (k : Nat), [1]⟩)
+
+/-- **The full statement is false**: a Watch body calls macro A while a call of A from the main flow is
+    inside A's Wait — both calls run (`bodyStart` twice) and complete, but the body is invoked once
+    (`run_started_count` 1, `run_completed_count` 2) and its Marks are set once: the second call joins the
+    running invocation (`running_invocation_is_continued`).  Observed on the real engine, recorded as
+    finding `macro-body-shared-by-overlapping-calls`. -/
+theorem C41_once_counterexample : ¬ C41_once_full := by
+  intro h
+  have h1 := h overlap overlapSched 1 "A" rfl (by
+    intro m' hm'
+    have : m' < 10 ∨ 10 ≤ m' := Nat.lt_or_ge m' 10
+    rcases this with h | h
+    · have : ∀ k, k < 10 → (node overlap k).kind = .macro "A" → k = 1 := by decide
+      exact this m' h hm'
+    · have : node overlap m' = default := by
+        unfold node; simp [Array.getD, overlap]; omega
+      rw [this] at hm'; cases hm')
+  have h2 : ((final overlap overlapSched).rt 1).runStarted = 1 ∧ callStarts overlap "A" (trace overlap overlapSched) = 2 ∧
+      (final overlap overlapSched).marks = ["a1", "a2", "e", "w"] := by decide +kernel
+  rw [h2.1, h2.2.1] at h1
+  cases h1
+
+/-- **What holds (partial)**: a call that is not refused and arrives while no invocation of the macro is
+    in progress starts a fresh invocation — `run_started_count` grows by exactly one, the macro node and
+    all its lines are reset (not started, not completed, `child_index` 0) — and runs the body from line 0. -/
+theorem C41_once_partial (p : Prog) (s : St) (n : Nat) (name : String) (m : Nat) (below : List Frame)
+    (hk : (node p n).kind = .call name) (hl : s.macros.lookup name = some m)
+    (hc : ¬ CallsName p s.macros name m) (hidle : (s.rt m).runStarted ≤ (s.rt m).runCompleted) :
+    ∃ s', stepBody p s n 0 below = .next s' [.children m 0 false, .callRet n m] .cont ∧
+      (s'.rt m).runStarted = (s.rt m).runStarted + 1 ∧
+      ∀ k, k = m ∨ k ∈ descendants p m →
+        (s'.rt k).started = false ∧ (s'.rt k).completed = false ∧ (s'.rt k).childIndex = 0 := by
+  refine ⟨_, nonrecursive_call_starts_body p s n name m below hk hl hc, ?_, ?_⟩
+  · simp only [rt_emit]; exact (fresh_invocation_resets_body p s m hidle).1
+  · intro k hk'
+    simp only [rt_emit]
+    have := (fresh_invocation_resets_body p s m hidle).2.2 k hk'
+    exact ⟨this.1, this.2.1, this.2.2.1⟩
+
+/-! ## a started macro may not be edited or removed (on the merge model) -/
+
+open OPM.Merge in
+/-- **An edit that removes a started macro, turns its line into another instruction, or changes any line of
+    it is rejected and changes nothing** — on the model of `Engine.set_method` / `_validate_liveedit_method`
+    (`OPM.Model.Merge`, tied to the code by the edit correspondence of C01), while the method manager still
+    looks at the running program (`mmShared`; after an accepted edit it does not: recorded finding). -/
+theorem started_macro_edit_is_rejected (mm : MM) (new : Method) (name : String) (mnode : Nat)
+    (hshared : mm.mmShared = true) (hrun : (getRt mm.st 0).started = true)
+    (hreg : (name, mnode) ∈ mm.st.macros) (hstarted : 0 < (getRt mm.st mnode).runStarted)
+    (hchanged : match indexOfId new (idOf mm.m mnode) with
+      | none => True                                                   -- the macro line is gone
+      | some k => isMacro new.prog k = false ∨ matchesSrc mm.m new mnode k = false) :
+    edit mm new = (mm, .rejected) := by
+  have hv : validate mm new = false := by
+    unfold validate
+    simp only [hshared, if_true]
+    have : (mm.st.macros.all (fun x =>
+        if (getRt mm.st x.2).runStarted > 0 then
+          match indexOfId new (idOf mm.m x.2) with
+          | none => false
+          | some k => isMacro new.prog k && matchesSrc mm.m new x.2 k
+        else true)) = false := by
+      rw [List.all_eq_false]
+      refine ⟨(name, mnode), hreg, ?_⟩
+      simp only [gt_iff_lt, hstarted, if_true]
+      cases hi : indexOfId new (idOf mm.m mnode) with
+      | none => simp
+      | some k =>
+        rw [hi] at hchanged
+        simp only [] at hchanged
+        rcases hchanged with h | h <;> simp [h]
+    simp only [this, Bool.and_false]
+  unfold edit
+  simp only [hshared, hrun, Bool.and_self, if_true, hv, Bool.false_eq_true, if_false]
+
+open OPM.Merge in
+/-- `matches_source` compares every field of every significant line: it holds only if the signatures
+    (class, arguments, threshold) of the two lines agree, they have the same number of significant
+    lines below them, and those match pairwise in order. -/
+theorem matchesSrc_compares_every_line (a b : Method) (x y : Nat) (h : matchesSrc a b x y = true) :
+    a.sigs.getD x "" = b.sigs.getD y "" ∧
+    ((node a.prog x).children.filter (fun c => !isBlank a.prog c)).length =
+      ((node b.prog y).children.filter (fun c => !isBlank b.prog c)).length := by
+  unfold matchesSrc matchesAux at h
+  simp only [Bool.and_eq_true, beq_iff_eq] at h
+  exact ⟨h.1, h.2.1⟩
 
 /-! ## what the function of the unchanged repository misses -/
 
